@@ -6,7 +6,7 @@ VERIF = os.path.dirname(os.path.dirname(os.path.abspath(__file__)))
 
 E1 = "e1"
 CHECKS = {
- "C01": dict(engine="E1 typed-read explorer + sample files", cat="exploration", ref="DESIGN.md 3.3, 4 C01",
+ "C01": dict(engine="E1 typed-read explorer + linked chains + scene graphs + sample files", cat="exploration", ref="DESIGN.md 3.3, 4 C01",
    technique="stateless deviation-bounded DFS over typed-read answers (bounded exhaustive exploration of the implementation)",
    text="Every decision path of every block reader (304 types x 28 version configurations) within a deviation bound from the all-defaults answer is executed on the real "
         "reader/writer; block level: write(read(B1)) == B1 and the reader consumes exactly what the writer wrote; file level (through NifFile::Load/Save with PrepareData/"
@@ -14,7 +14,7 @@ CHECKS = {
         "which is what a per-type/per-version universal claim needs and what 26 golden files cannot give.",
    note="Values outside the per-kind alphabets and more than 1 (quick) / 2 (thorough) simultaneous deviations are not explored; branching only at the first occurrence of a call site; "
         "inputs on which the reader itself faults are counted as not accepted; file level covers deviation 0 (quick) / <= 1 (thorough)."),
- "C02": dict(engine="E1 typed-read explorer + sample files", cat="exploration", ref="DESIGN.md 4 C02",
+ "C02": dict(engine="E1 typed-read explorer + linked chains + scene graphs + sample files", cat="exploration", ref="DESIGN.md 4 C02",
    technique="exhaustive enumeration of save/query histories (<= 3 operations) over the E1 corpus, reference function on histories",
    text="All histories over {raw save, default save, read-only query battery} up to length 3 (5 representative ones in quick) on every sample file and on the synthesised single-block files, "
         "compared with twin objects after canonical string-table renumbering, plus three consecutive writes of every synthesised block; the logical snapshot must survive every save.",
@@ -40,7 +40,8 @@ CHECKS = {
    technique="explicit-state breadth-first search over operation histories on the real NifFile/NiHeader with a reference model and canonical-state deduplication",
    text="Breadth-first search over all histories of add/delete/replace/reorder (every permutation)/delete-by-type/prune/sort with every argument over the full index range, on graphs of "
         "<= 4 (quick) / 5 (thorough) blocks to depth 4 / 5; every transition runs on the implementation and is compared with a reference model of an indexed object graph (logical ids, "
-        "types, reference targets, header tables), every reached state is saved and reloaded.",
+        "types, reference targets, header tables), every reached state is saved and reloaded. A typed phase puts every one of the 304 block types (read from an E1 tape, references "
+        "alternating between two targets) into a 4-block graph, applies six edits and requires the references the block serialises (write hook) to follow the induced renumbering.",
    note="Canonical state = per slot (type, sorted target slots, empty-reference count) + version; block payloads other than references do not influence the operations explored. "
         "Initial graphs: root only, a 4-block graph, and (thorough) a shape graph, in SSE and OB."),
  "C07": dict(engine="E1 corpus + edit menu + independent codec", cat="exploration", ref="DESIGN.md 4 C07",
@@ -108,7 +109,7 @@ CHECKS = {
    note="Index lists that break the documented sorted-ascending precondition are outside the property's quantifier and off by default (--precond 1 drives them for memory safety only)."),
  "C19": dict(engine="E4 token language", cat="exploration", ref="DESIGN.md 4 C19",
    technique="exhaustive enumeration of the token language up to a length x versions x terrain x slot kinds against a canonical-form predicate",
-   text="Every string of <= 5 / 6 tokens over a 10-token alphabet in texture-set slots (<= 3 / 4 tokens in effect-shader and NiSourceTexture slots) x 6 versions x terrain flag, plus a "
+   text="Every string of <= 4 / 6 tokens over a 10-token alphabet in texture-set slots (<= 3 / 4 tokens in effect-shader and NiSourceTexture slots) x 6 versions x terrain flag, plus a "
         "long-path family up to 4 KiB; canonical-form predicate after clean-up, idempotence, and agreement between explicit clean-up and Load.",
    note="Weaker reading wherever the statement is open (whitespace = C locale, relative = no leading separator/drive); Linux semantics of is_relative_path only."),
  "C20": dict(engine="E4 lattice", cat="exploration", ref="DESIGN.md 4 C20",
